@@ -151,12 +151,12 @@ impl Checker {
             }
         };
         let sig = format!("{}:{}:{}", kind, inp.name, schedule);
+        let total: u32 = self.reported.values().map(|v| (*v).min(3)).sum();
         let c = self.reported.entry(format!("{}:{}", kind, inp.name)).or_insert(0);
         *c += 1;
         ctx.count(&format!("mismatch:{}", kind), 1);
         // the core keeps at most 40 violations per process: leave room for
         // the cross-process comparison that runs last
-        let total: u32 = self.reported.values().map(|v| (*v).min(3)).sum();
         if *c > 3 || total > 28 {
             return;
         }
